@@ -3,10 +3,14 @@
     nat stay the extracted inductive types. *)
 From Coq Require Import ExtrOcamlBasic.
 Require Import Riti.model.Base Riti.model.Chars Riti.model.FixedCompose Riti.model.Layout
-        Riti.model.FixedLonely Riti.gen.Gen_Tables Riti.spec.C12_Spec Riti.spec.C13_Spec.
+        Riti.model.FixedLonely Riti.model.Split Riti.model.Rank Riti.model.Phonetic Riti.model.FixedSuggest
+        Riti.gen.Gen_Tables Riti.spec.C12_Spec Riti.spec.C13_Spec.
 
 Extraction Language OCaml.
 Extraction "../driver/model.ml"
   f_run f_run_obs f_step f_init f_text f_ongoing process_key_value insert_old_style_reph
   layout_probhat layout_synthetic keycode_to_char get_char_for_key altgr_of
-  rule_table reph_spec wf_hasanta.
+  rule_table reph_spec wf_hasanta
+  split smart_quoter rank_cmp sort_ranks
+  p_new p_step p_ongoing suggest suggest_only_phonetic join direct
+  x_init x_step x_ongoing x_buffer dictionary_suggestion_parts search_dictionary.
